@@ -25,6 +25,7 @@ import tempfile
 from . import common
 from .common import MachineryError
 
+MAX_YIELDS = 800        # per recorded run
 MAX_EVENTS = 4000       # per recorded run (longer runs are validated in run mode only)
 
 
@@ -110,6 +111,96 @@ def record_run(tid, g1, g2, labels=None, stereo=False, changes=False):
     inst["st2"], inst["sc2"], inst["rl2"] = _extras(g2, stereo, changes)
     return {"tid": tid, "inst": inst, "events": rec.events, "truncated": rec.truncated,
             "yields": [sorted([a, b] for a, b in y.items()) for y in ys]}, ys
+
+
+def record_eq(tid, g1, g2):
+    """g1 == g2 with the tracer installed: the loop runs with colour-refined labels and stops at the first yield, so the
+    recorded events are a PREFIX of a run; returns (record or None, result of ==)"""
+    from stereomolgraph.algorithms import isomorphism as I
+    if not I._VERIF:
+        raise MachineryError("the VF2 tracer hook is disabled (STEREOMOLGRAPH_VERIF=1 not set at import time)")
+    rec = Recorder()
+    rec.events, rec.truncated = [], False
+    old = I._verif_tracer
+    I._verif_tracer = rec
+    try:
+        val = (g1 == g2)
+    finally:
+        I._verif_tracer = old
+    if rec.order is None:
+        return None, val
+    kind = type(g1).__name__
+    stereo = kind in ("StereoMolGraph", "StereoCondensedReactionGraph")
+    changes = kind == "StereoCondensedReactionGraph"
+    p = rec.params
+    intern = {}
+
+    def lab(x):
+        x = int(x)
+        if x not in intern:
+            intern[x] = len(intern) + 1
+        return intern[x]
+    inst = {"n1": sorted(p.g1_nbrhd), "n2": sorted(p.g2_nbrhd),
+            "adj1": [[a, sorted(n)] for a, n in sorted(p.g1_nbrhd.items())],
+            "adj2": [[a, sorted(n)] for a, n in sorted(p.g2_nbrhd.items())],
+            "lab1": [[a, lab(p.g1_labels[a])] for a in sorted(p.g1_nbrhd)],
+            "lab2": [[a, lab(p.g2_labels[a])] for a in sorted(p.g2_nbrhd)],
+            "order": rec.order, "stereo": stereo, "changes": changes}
+    inst["st1"], inst["sc1"], inst["rl1"] = _extras(g1, stereo, changes)
+    inst["st2"], inst["sc2"], inst["rl2"] = _extras(g2, stereo, changes)
+    return {"tid": tid, "inst": inst, "events": rec.events, "truncated": rec.truncated, "eq": val}, val
+
+
+def collect_eq(prop, tier, rep, seed):
+    """C01 / C02 through the loop model: `x == y` on family pairs with the tracer installed.  The recorded prefix must
+    follow spec/VF2.tla step by step (a divergence is a note, as for C05), and the verdict of == must agree with the
+    specification's own run on the recorded instance (same refined labels): True exactly when the run finds a mapping."""
+    rnd = random.Random(seed * 104729 + 11)
+    fams = ["smg3", "two", "twop", "ethene", "star4lp", "crg3", "prismr", "scrg2", "ethener", "sn2"]
+    if tier != "quick":
+        fams += ["star5", "lp2", "tbp", "oct", "star5r", "cuber", "prismsr", "exch"]
+    pairs = family_pairs(rnd, fams, 30 if tier == "quick" else 300)
+    recs, results = [], {}
+    skipped = 0
+    tid = 1
+    for kind, x, y, _labels, _st, _ch in pairs:
+        try:
+            rec, val = record_eq(tid, x, y)
+        except Exception:
+            skipped += 1
+            continue
+        if rec is None:
+            skipped += 1
+            continue
+        rec["kind"] = kind
+        recs.append(rec)
+        tid += 1
+    if not recs:
+        raise MachineryError("no == run reached the VF2 loop (hook missing?)")
+    verd, res1 = replay([r for r in recs if not r["truncated"]])
+    found, res2 = run_mode(recs)
+    n_div = 0
+    for r in recs:
+        f = found.get(r["tid"])
+        if f is None:
+            raise MachineryError("Run_VF2 did not finish a recorded == instance")
+        spec_says = bool(f["found"])
+        if r["eq"] is True and not spec_says and prop == "C02":
+            rep.violation("C02|eq-true-but-specification-run-finds-no-mapping|" + r["kind"].split(":")[-1],
+                          "x == y is True although the specification's VF2++ run on the recorded instance (same labels, descriptors, "
+                          "roles) finds no structure-preserving bijection", {"kind": r["kind"], "inst": r["inst"]})
+        if r["eq"] is False and spec_says and prop == "C01":
+            rep.violation("C01|eq-false-but-specification-run-finds-a-mapping|" + r["kind"].split(":")[-1],
+                          "x == y is False although the specification's VF2++ run on the recorded instance finds a structure-preserving "
+                          "bijection", {"kind": r["kind"], "inst": r["inst"], "mapping": f["found"][:1]})
+        v = verd.get(r["tid"])
+        if v and not (v["reached"] == v["len"] and v["book"] and v["piso"] and v["shape"]):
+            n_div += 1
+    if n_div:
+        rep.note("== runs: the VF2 loop leaves spec/VF2.tla in %d of %d recorded prefixes (verdicts still compared with the "
+                 "specification's own run)" % (n_div, len(recs)))
+    return {"eq_runs": len(recs), "eq_true": sum(1 for r in recs if r["eq"] is True), "skipped_before_loop": skipped,
+            "diverged": n_div, "states": res1.distinct + res2.distinct, "generated": res1.generated + res2.generated}
 
 
 # ---------------------------------------------------------------------------------------------------------------
@@ -282,7 +373,9 @@ def record_all(pairs, start_tid=1):
         else:
             kind, g1, g2, labels, stereo, changes = item
         rec, ys = record_run(tid, g1, g2, labels, stereo, changes)
-        if rec is None:
+        if rec is None or len(ys) > MAX_YIELDS:
+            # (the specification's run keeps the yielded mappings in a bag: instances with thousands of automorphisms,
+            # e.g. molecules with many methyl groups under element labels, are left to the direct comparisons of C05)
             skipped += 1
             continue
         rec["kind"] = kind
